@@ -55,3 +55,14 @@ func (ec *EphemeralContractor) VerifAttached(a proto4.Account) []proto4.Account 
 
 // VerifContracts returns the number of contracts held.
 func (ec *EphemeralContractor) VerifContracts() int { return len(ec.contracts) }
+
+// VerifSetElement installs the state element of a contract.
+func (ec *EphemeralContractor) VerifSetElement(id types.FileContractID, fce types.V2FileContractElement) {
+	ec.contractElements[id] = fce
+}
+
+// VerifHasContract reports whether a contract with this id is held.
+func (ec *EphemeralContractor) VerifHasContract(id types.FileContractID) bool {
+	_, ok := ec.contracts[id]
+	return ok
+}
